@@ -225,10 +225,9 @@ Http::Stream::socketState()
                 // we got everything we wanted from the store
                 return STREAM_COMPLETE;
             }
-        } else if (reply && reply->contentRange() &&
-                   !http->request->flags.chunkedReply && reply->bodySize(http->request->method) < 0) {
+        } else if (reply && reply->contentRange() && !http->request->flags.chunkedReply) {
             /* reply has content-range, but Squid is not managing ranges;
-             * a reply framed by chunked coding or Content-Length ends where its framing says */
+             * a reply sent with chunked coding ends with its last-chunk instead */
             const int64_t &bytesSent = http->out.offset;
             const int64_t &bytesExpected = reply->contentRange()->spec.length;
 
